@@ -132,6 +132,12 @@ func c19Scenario(c *choice.Ctx, rep *report.R, depth int) {
 			cl := cl
 			hit := func() {
 				before := len(cl.sc.Responses())
+				pendBefore := 0
+				for _, p := range u.Pending() {
+					if ecsGroup(p) == cl.group {
+						pendBefore++
+					}
+				}
 				if cl.name == "g1b" {
 					cl.sc.SendMsg(qMixed)
 				} else {
@@ -182,6 +188,20 @@ func c19Scenario(c *choice.Ctx, rep *report.R, depth int) {
 					if r.An[0].TTL > max || (max > 2 && r.An[0].TTL < max-2) {
 						fail("ttl-after-refresh", fmt.Sprintf("hit shows ttl %d, expected about %d (entry ttl %d, age %ds)", r.An[0].TTL, max, st.ttl, age))
 					}
+					// a hit well inside the last quarter (80..92 % of the lifetime) while no refresh of its group is in flight starts one:
+					// a reservation that outlives its refresh would switch refreshing off for this entry for good
+					life := time.Duration(st.ttl) * time.Second
+					if a := time.Since(st.storedAt); pendBefore == 0 && st.either == nil && a >= life*80/100 && a <= life*92/100 {
+						n := 0
+						for _, p := range u.Pending() {
+							if ecsGroup(p) == cl.group {
+								n++
+							}
+						}
+						if n == 0 {
+							fail("refresh-not-started", fmt.Sprintf("hit from %s at %v of a lifetime of %v with no refresh of group %s in flight (%d completed before): no refresh was started", cl.name, a, life, cl.group, st.refreshes))
+						}
+					}
 				}
 			}
 			hitOf[cl.name] = hit
@@ -224,6 +244,14 @@ func c19Scenario(c *choice.Ctx, rep *report.R, depth int) {
 				p.Reply(env.RCodeReply(p.Msg, 4).Encode(false))
 				gs[g].refreshes++
 			}})
+		}
+		for _, g := range []string{"g1", "g2"} {
+			g, st := g, gs[g]
+			// on to 85 % of the current entry's lifetime: the next hit lands inside its last quarter (after a refresh with a short ttl
+			// the fixed steps would jump over it)
+			if at := st.storedAt.Add(time.Duration(st.ttl) * time.Second * 85 / 100); st.refreshes > 0 && time.Now().Before(at) && st.either == nil {
+				menu = append(menu, event{name: fmt.Sprintf("advance-to-85%%-of-lifetime(%s)", g), do: func() { hsleep(time.Until(at)) }})
+			}
 		}
 		menu = append(menu, event{name: "advance1s", do: func() { hsleep(time.Second) }})
 		menu = append(menu, event{name: "advance5.5s", do: func() { hsleep(5500 * time.Millisecond) }})
